@@ -44,6 +44,17 @@ def Move.dest (m : Move) : Option (Int × Int) :=
 def setBit (w : W) (i : Nat) : W := w ||| bit i
 def clrBit (w : W) (i : Nat) : W := w &&& ~~~(bit i)
 
+/-- the internal hash field recomputed from scratch: `fnvBasis ⊕ ⨁ᵢ hashAt i` -/
+def scratchHash (basis : Array W) (p : Pos) : W :=
+  (List.range p.height.size).foldl (fun h i => h ^^^ p.hashAt basis i) (BitVec.ofNat 64 Facts.fnvBasis)
+
+/-- the bracketed update of `MovePreallocated`:
+`next.hash ^= next.hashAt(i); <assign Stacks[i], Height[i]>; next.hash ^= next.hashAt(i)` -/
+def Pos.setStack (basis : Array W) (p : Pos) (i : Nat) (s : W) (h : U8) : Pos :=
+  let p := { p with hash := p.hash ^^^ p.hashAt basis i }
+  let p := { p with stacks := p.stacks.setIfInBounds i s, height := p.height.setIfInBounds i h }
+  { p with hash := p.hash ^^^ p.hashAt basis i }
+
 /-- state of the slide loop in `MovePreallocated` -/
 structure SlideSt where
   next : Pos
@@ -51,136 +62,141 @@ structure SlideSt where
   y : Int
   ct : Nat
 
+/-- the `switch` at the head of the loop body: a capstone blocks, a wall blocks unless a lone capstone flattens it -/
+def enterSquare (next : Pos) (top : Piece) (ct i : Nat) : R Pos :=
+  if next.caps.getLsbD i then .error (.illegal "capstone in the way")
+  else if next.standing.getLsbD i then
+    if ct ≠ 1 ∨ top.kind ≠ .capstone then .error (.illegal "wall in the way")
+    else .ok { next with standing := clrBit next.standing i }
+  else .ok next
+
+/-- the rest of the loop body: drop `c` of the `ct` carried pieces (`stack` bit k = colour of the k-th from the top) on `i` -/
+def dropOn (basis : Array W) (next : Pos) (top : Piece) (stack : W) (ct c i : Nat) : Pos :=
+  let s0 := next.stacks.getD i 0
+  let s1 : W := if next.white.getLsbD i then s0 <<< 1
+            else if next.black.getLsbD i then (s0 <<< 1) ||| 1#64
+            else s0
+  let drop := (stack >>> (ct - (c - 1))) &&& ((1#64 <<< (c - 1)) - 1#64)
+  let s2 := (s1 <<< (c - 1)) ||| drop
+  let next := next.setStack basis i s2 (next.height.getD i 0 + BitVec.ofNat 8 c)
+  let next := if stack.getLsbD (ct - c)
+              then { next with black := setBit next.black i, white := clrBit next.white i }
+              else { next with black := clrBit next.black i, white := setBit next.white i }
+  if ct - c == 0 then
+    match top.kind with
+    | .capstone => { next with caps := setBit next.caps i }
+    | .standing => { next with standing := setBit next.standing i }
+    | .flat => next
+  else next
+
 /-- one iteration of the drop loop -/
 def slideStep (basis : Array W) (p : Pos) (top : Piece) (stack : W) (dx dy : Int) (st : SlideSt) (c : Nat) : R SlideSt :=
-  let next := st.next
   let x := st.x + dx
   let y := st.y + dy
   let sz : Int := p.cfg.size
   if x < 0 ∨ x ≥ sz ∨ y < 0 ∨ y ≥ sz then .error (.illegal "slide off board") else
   if c < 1 ∨ c > st.ct then .error (.illegal "bad drop") else
   let i := (x + y * sz).toNat
-  let ct := st.ct
-  -- wall / capstone
-  let blocked : R Pos :=
-    if next.caps.getLsbD i then .error (.illegal "capstone in the way")
-    else if next.standing.getLsbD i then
-      if ct ≠ 1 ∨ top.kind ≠ .capstone then .error (.illegal "wall in the way")
-      else .ok { next with standing := clrBit next.standing i }
-    else .ok next
-  match blocked with
+  match enterSquare st.next top st.ct i with
   | .error e => .error e
-  | .ok next =>
-    let next := { next with hash := next.hash ^^^ next.hashAt basis i }
-    let s0 := next.stacks.getD i 0
-    let s1 : W := if next.white.getLsbD i then s0 <<< 1
-              else if next.black.getLsbD i then (s0 <<< 1) ||| 1#64
-              else s0
-    let drop := (stack >>> (ct - (c - 1))) &&& ((1#64 <<< (c - 1)) - 1#64)
-    let s2 := (s1 <<< (c - 1)) ||| drop
-    let next := { next with stacks := next.stacks.setIfInBounds i s2
-                            height := next.height.setIfInBounds i (next.height.getD i 0 + BitVec.ofNat 8 c) }
-    let next := { next with hash := next.hash ^^^ next.hashAt basis i }
-    let next := if stack.getLsbD (ct - c)
-                then { next with black := setBit next.black i, white := clrBit next.white i }
-                else { next with black := clrBit next.black i, white := setBit next.white i }
-    let ct := ct - c
-    let next := if ct == 0 then
-                  match top.kind with
-                  | .capstone => { next with caps := setBit next.caps i }
-                  | .standing => { next with standing := setBit next.standing i }
-                  | .flat => next
-                else next
-    .ok { next := next, x := x, y := y, ct := ct }
+  | .ok next => .ok { next := dropOn basis next top stack st.ct c i, x := x, y := y, ct := st.ct - c }
 
 def slideLoop (basis : Array W) (p : Pos) (top : Piece) (stack : W) (dx dy : Int) : List Nat → SlideSt → R SlideSt
   | [], st => .ok st
-  | c :: cs, st => do
-    let st ← slideStep basis p top stack dx dy st c
-    slideLoop basis p top stack dx dy cs st
+  | c :: cs, st =>
+    match slideStep basis p top stack dx dy st c with
+    | .error e => .error e
+    | .ok st => slideLoop basis p top stack dx dy cs st
 
 def finish (next : Pos) : R Pos :=
   match next.analyze with
   | some q => .ok q
   | none => .error (.hang "analyze")
 
+/-- the `switch m.Type`: `none` = invalid type code; otherwise the piece to place (if any) and the direction -/
+def dispatch (mover : Color) (m : Move) : Option (Option Piece × Int × Int) :=
+  if m.type == Facts.mtPlaceFlat then some (some ⟨mover, .flat⟩, 0, 0)
+  else if m.type == Facts.mtPlaceStanding then some (some ⟨mover, .standing⟩, 0, 0)
+  else if m.type == Facts.mtPlaceCapstone then some (some ⟨mover, .capstone⟩, 0, 0)
+  else if m.type == Facts.mtSlideLeft then some (none, -1, 0)
+  else if m.type == Facts.mtSlideRight then some (none, 1, 0)
+  else if m.type == Facts.mtSlideUp then some (none, 0, 1)
+  else if m.type == Facts.mtSlideDown then some (none, 0, -1)
+  else none
+
+/-- opening rule: `place.Kind() != Flat` is also true of the zero piece, i.e. of every slide -/
+def openingRule (p : Pos) (place : Option Piece) : R (Option Piece) :=
+  if p.move < 2 then
+    match place with
+    | some pc => if pc.kind ≠ .flat then .error (.illegal "illegal opening") else .ok (some ⟨pc.color.flip, pc.kind⟩)
+    | none => .error (.illegal "illegal opening")
+  else .ok place
+
+/-- the placement branch (`if place != 0 { … }`) -/
+def placeOn (p next : Pos) (i : Nat) (pc : Piece) : R Pos :=
+  if (p.white ||| p.black).getLsbD i then .error (.illegal "occupied") else
+  let next := match pc.kind with
+    | .capstone => { next with caps := setBit next.caps i }
+    | .standing => { next with standing := setBit next.standing i }
+    | .flat => next
+  let useCaps := pc.kind == .capstone
+  -- NB: the capstone branch picks the reserve by side to move, the stone branch by piece colour
+  let blackRes := if useCaps then p.toMove == .black else pc.color == .black
+  let stones := if useCaps then (if blackRes then next.blackCaps else next.whiteCaps)
+                else (if blackRes then next.blackStones else next.whiteStones)
+  if stones == 0#8 then .error (.illegal "no stones") else
+  let next := if useCaps then
+                (if blackRes then { next with blackCaps := stones - 1 } else { next with whiteCaps := stones - 1 })
+              else
+                (if blackRes then { next with blackStones := stones - 1 } else { next with whiteStones := stones - 1 })
+  let next := if pc.color == .white then { next with white := setBit next.white i }
+              else { next with black := setBit next.black i }
+  let next := { next with height := next.height.setIfInBounds i (next.height.getD i 0 + 1) }
+  finish next
+
+/-- lifting the carried pieces off the origin square -/
+def liftFrom (basis : Array W) (next : Pos) (stack : W) (h ct i : Nat) : Pos :=
+  let next := { next with caps := clrBit next.caps i, standing := clrBit next.standing i }
+  let next := if h == ct then { next with white := clrBit next.white i, black := clrBit next.black i }
+              else if !stack.getLsbD ct then { next with white := setBit next.white i, black := clrBit next.black i }
+              else { next with black := setBit next.black i, white := clrBit next.white i }
+  next.setStack basis i (next.stacks.getD i 0 >>> ct) (next.height.getD i 0 - BitVec.ofNat 8 ct)
+
+/-- the slide branch -/
+def slideFrom (basis : Array W) (p next : Pos) (m : Move) (i : Nat) (dx dy : Int) : R Pos :=
+  let drops := Slides.elems m.slides
+  if drops.any (· == 0) then .error (.illegal "zero drop") else
+  let ct := drops.foldl (· + ·) 0
+  let h := (p.height.getD i 0).toNat
+  if ct > p.cfg.size ∨ ct < 1 ∨ ct > h then .error (.illegal "bad carry") else
+  if p.toMove == .white ∧ !p.white.getLsbD i then .error (.illegal "not yours") else
+  if p.toMove == .black ∧ !p.black.getLsbD i then .error (.illegal "not yours") else
+  match p.topAt i with
+  | none => .error (.panic "slide from empty square")   -- unreachable: mover's bit is set
+  | some top =>
+  let stack := (p.stacks.getD i 0 <<< 1) ||| (if top.color == .black then 1#64 else 0#64)
+  let next := liftFrom basis next stack h ct i
+  match slideLoop basis p top stack dx dy drops { next := next, x := m.x, y := m.y, ct := ct } with
+  | .error e => .error e
+  | .ok st => finish st.next
+
 /-- `Position.MovePreallocated` (value semantics; storage is the subject of `Impl.Alloc`).
 The model is of the tree *with* the bounds check on the origin square. -/
 def Pos.apply (basis : Array W) (p : Pos) (m : Move) : R Pos :=
   let next := { p with move := p.move + 1 }
-  -- type dispatch
   if m.type == Facts.mtPass then finish next else
-  let mover := p.toMove
-  let disp : Option (Option Piece × Int × Int) :=
-    if m.type == Facts.mtPlaceFlat then some (some ⟨mover, .flat⟩, 0, 0)
-    else if m.type == Facts.mtPlaceStanding then some (some ⟨mover, .standing⟩, 0, 0)
-    else if m.type == Facts.mtPlaceCapstone then some (some ⟨mover, .capstone⟩, 0, 0)
-    else if m.type == Facts.mtSlideLeft then some (none, -1, 0)
-    else if m.type == Facts.mtSlideRight then some (none, 1, 0)
-    else if m.type == Facts.mtSlideUp then some (none, 0, 1)
-    else if m.type == Facts.mtSlideDown then some (none, 0, -1)
-    else none
-  match disp with
+  match dispatch p.toMove m with
   | none => .error (.illegal "invalid move type")
   | some (place, dx, dy) =>
-  -- opening rule: `place.Kind() != Flat` is also true of the zero piece, i.e. of every slide
-  let place? : R (Option Piece) :=
-    if p.move < 2 then
-      match place with
-      | some pc => if pc.kind ≠ .flat then .error (.illegal "illegal opening") else .ok (some ⟨pc.color.flip, pc.kind⟩)
-      | none => .error (.illegal "illegal opening")
-    else .ok place
-  match place? with
+  match openingRule p place with
   | .error e => .error e
   | .ok place =>
   let sz : Int := p.cfg.size
   if m.x < 0 ∨ m.x ≥ sz ∨ m.y < 0 ∨ m.y ≥ sz then .error (.illegal "off board") else
   let i := (m.x + m.y * sz).toNat
   match place with
-  | some pc =>
-    if (p.white ||| p.black).getLsbD i then .error (.illegal "occupied") else
-    -- reserves
-    let next := match pc.kind with
-      | .capstone => { next with caps := setBit next.caps i }
-      | .standing => { next with standing := setBit next.standing i }
-      | .flat => next
-    let useCaps := pc.kind == .capstone
-    -- NB: the capstone branch picks the reserve by side to move, the stone branch by piece colour
-    let blackRes := if useCaps then p.toMove == .black else pc.color == .black
-    let stones := if useCaps then (if blackRes then next.blackCaps else next.whiteCaps)
-                  else (if blackRes then next.blackStones else next.whiteStones)
-    if stones == 0#8 then .error (.illegal "no stones") else
-    let next := if useCaps then
-                  (if blackRes then { next with blackCaps := stones - 1 } else { next with whiteCaps := stones - 1 })
-                else
-                  (if blackRes then { next with blackStones := stones - 1 } else { next with whiteStones := stones - 1 })
-    let next := if pc.color == .white then { next with white := setBit next.white i }
-                else { next with black := setBit next.black i }
-    let next := { next with height := next.height.setIfInBounds i (next.height.getD i 0 + 1) }
-    finish next
-  | none =>
-    let drops := Slides.elems m.slides
-    if drops.any (· == 0) then .error (.illegal "zero drop") else
-    let ct := drops.foldl (· + ·) 0
-    let h := (p.height.getD i 0).toNat
-    if ct > p.cfg.size ∨ ct < 1 ∨ ct > h then .error (.illegal "bad carry") else
-    if p.toMove == .white ∧ !p.white.getLsbD i then .error (.illegal "not yours") else
-    if p.toMove == .black ∧ !p.black.getLsbD i then .error (.illegal "not yours") else
-    match p.topAt i with
-    | none => .error (.panic "slide from empty square")   -- unreachable: mover's bit is set
-    | some top =>
-    let stack := (p.stacks.getD i 0 <<< 1) ||| (if top.color == .black then 1#64 else 0#64)
-    let next := { next with caps := clrBit next.caps i, standing := clrBit next.standing i }
-    let next := if h == ct then { next with white := clrBit next.white i, black := clrBit next.black i }
-                else if !stack.getLsbD ct then { next with white := setBit next.white i, black := clrBit next.black i }
-                else { next with black := setBit next.black i, white := clrBit next.white i }
-    let next := { next with hash := next.hash ^^^ next.hashAt basis i }
-    let next := { next with stacks := next.stacks.setIfInBounds i (next.stacks.getD i 0 >>> ct)
-                            height := next.height.setIfInBounds i (next.height.getD i 0 - BitVec.ofNat 8 ct) }
-    let next := { next with hash := next.hash ^^^ next.hashAt basis i }
-    match slideLoop basis p top stack dx dy drops { next := next, x := m.x, y := m.y, ct := ct } with
-    | .error e => .error e
-    | .ok st => finish st.next
+  | some pc => placeOn p next i pc
+  | none => slideFrom basis p next m i dx dy
 
 /-! ### move generation -/
 
